@@ -61,8 +61,8 @@ def _sanitize_attrs_nc(dt: xr.DataTree) -> xr.DataTree:
 def _should_desanitize(attr: Any) -> bool:
     if isinstance(attr, str):
         if (
-            (attr[0] == "{" and attr[-1] == "}")
-            or (attr[0] == "[" and attr[-1] == "]")
+            (attr.startswith("{") and attr.endswith("}"))
+            or (attr.startswith("[") and attr.endswith("]"))
             or (attr in ["True", "False"])
             or (attr == "None")
         ):
@@ -70,14 +70,22 @@ def _should_desanitize(attr: Any) -> bool:
     return False
 
 
+def _literal_eval_or_keep(attr: str) -> Any:
+    """Evaluate a sanitized attribute; keep user strings that only look like a literal (e.g. "[m/s]")."""
+    try:
+        return literal_eval(attr)
+    except (ValueError, SyntaxError):
+        return attr
+
+
 def _desanitize_attrs_nc(dt: xr.DataTree) -> xr.DataTree:
     """Desanitize both node-level and variable-level attrs from strings for netcdf."""
     for node in dt.subtree:
         for key, attr in node.attrs.items():
             if _should_desanitize(attr):
-                node.attrs[key] = literal_eval(attr)
+                node.attrs[key] = _literal_eval_or_keep(attr)
         for v in node.variables:
             for key, attr in node[v].attrs.items():
                 if _should_desanitize(attr):
-                    node[v].attrs[key] = literal_eval(attr)
+                    node[v].attrs[key] = _literal_eval_or_keep(attr)
     return dt
